@@ -178,6 +178,8 @@ def kamstrup_cases():
     c["kamstrup body hourly 1-phase with null padding after every element"] = body_case("han.kamstrup", lambda V: kamstrup_body(it1h, V, padding=tuple(range(0, len(it1h) + 1))))
     c["kamstrup body 10s 3-phase CT meter (type 685...)"] = body_case("han.kamstrup", lambda V: kamstrup_body(kamstrup_items(3, False), V, meter_type=b"685700000000000000"))
     c["kamstrup frame 10s 1-phase CT meter (tagged APDU clock)"] = frame_case("han.kamstrup", lambda V: kamstrup_body(kamstrup_items(1, False), V, meter_type=b"685123456789012345"), "tagged", "always")
+    c["kamstrup body hourly 3-phase CT meter (type 685...)"] = body_case("han.kamstrup", lambda V: kamstrup_body(kamstrup_items(3, True), V, meter_type=b"685700000000000000"))
+    c["kamstrup frame hourly 1-phase CT meter (untagged APDU clock)"] = frame_case("han.kamstrup", lambda V: kamstrup_body(kamstrup_items(1, True), V, meter_type=b"685123456789012345"), "untagged", "always")
     c["kamstrup body 10s 3-phase direct meter (type 684...)"] = body_case("han.kamstrup", lambda V: kamstrup_body(kamstrup_items(3, False), V, meter_type=b"684700000000000000"))
     return c
 def datetime_cases():
